@@ -290,6 +290,9 @@ Qed.
 Lemma has_chr_false_head c x s : has_chr c (x :: s) = false -> (x =? c) = false.
 Proof. rewrite has_chr_cons. intros H. apply orb_false_iff in H. rewrite N.eqb_sym. tauto. Qed.
 
+Lemma skip_quote l : skip fl_arg (c_quote :: l) = in_arg fl_arg l [] true false false.
+Proof. reflexivity. Qed.
+
 (* one serialised safe argument is read back as that argument *)
 Lemma skip_ser1 a t : safe a = true -> sep_or_end t ->
   skip fl_arg (ser1 a ++ t) = POk (t, Some a).
@@ -304,13 +307,7 @@ Proof.
     rewrite andb_true_r in Hq2.
     change ([c_quote] ++ (c :: a) ++ [c_quote]) with ([c_quote] ++ ((c :: a) ++ [c_quote])).
     rewrite !double_bs_app. change (double_bs [c_quote]) with [c_quote]. rewrite <- !app_assoc.
-    cbn [app skip fl_arg allow_quotes].
-    replace (c_quote =? c_hash) with false by reflexivity.
-    replace (c_quote =? c_sp) with false by reflexivity.
-    replace (c_quote =? c_quote) with true by reflexivity.
-    change (c_quote :: t) with ([c_quote] ++ t).
-    change (match (if c =? c_bs then [c_bs; c_bs] else [c]) ++ flat_map (fun x => if x =? c_bs then [c_bs; c_bs] else [x]) a ++ [c_quote] ++ t with _ => _ end)
-      with (in_arg fl_arg (double_bs (c :: a) ++ c_quote :: t) [] true false false).
+    cbn [app]. rewrite skip_quote.
     rewrite in_arg_quoted by assumption. now rewrite finish_rev by discriminate.
   - (* written bare *)
     unfold cls_H in Hh. rewrite Esp in Hh. cbn [negb] in Hh. rewrite andb_true_r in Hh.
@@ -457,6 +454,12 @@ Proof.
   - apply N.eqb_eq in E. subst c. reflexivity.
   - cbn in H. apply N.eqb_eq in H. subst c. reflexivity.
 Qed.
+Lemma xstep_RN_other e acc st c : (c =? c_bs) = false -> (c =? c_dollar) || (c =? c_pct) = false ->
+  xstep e (state_of RN acc [] st) c = state_of RN (acc ++ [c]) [] st.
+Proof.
+  intros Hb H. apply orb_false_iff in H. destruct H as [H1 H2].
+  unfold state_of. apply xstep_lit. unfold lit_char_ok. now rewrite H1, H2, Hb.
+Qed.
 Lemma xstep_RF e acc st c : (c =? c_dollar) || (c =? c_pct) = false ->
   xstep e (state_of RF acc [] st) c = state_of RN ((acc ++ [c_bs]) ++ [c]) [] st.
 Proof.
@@ -479,7 +482,7 @@ Lemma xstep_RK_break e acc key st b c : (c =? c_rbrace) = false -> should_break_
 Proof.
   intros H1 H2. unfold xstep, state_of, flush_prefix, push_prefix, pfx.
   cbn [x_found x_force x_pidx x_value x_key x_single negb]. rewrite H1, H2.
-  cbn [orb N.ltb]. rewrite <- !app_assoc. reflexivity.
+  change ((0 <? 0) || true) with true. cbv beta iota zeta. rewrite <- !app_assoc. reflexivity.
 Qed.
 Lemma xstep_RK_key e acc key st b c : (c =? c_rbrace) = false -> should_break_key c = false ->
   xstep e (state_of (RK b) acc key st) c = state_of (RK true) acc (key ++ [c]) st.
@@ -501,7 +504,8 @@ Proof.
     + destruct b; [|discriminate]. inversion H. subst. cbn [key_ok] in Hk.
       destruct key as [|k key]; [discriminate|].
       unfold xfinish, state_of, pending, push_prefix, pfx.
-      cbn [x_found x_force x_pidx x_value x_key x_single negb is_nil orb].
+      cbn [x_found x_force x_pidx x_value x_key x_single negb is_nil].
+      change ((0 <? 0) || true) with true. cbv beta iota.
       rewrite app_nil_r. rewrite <- !app_assoc. reflexivity.
   - cbn [fold_left]. destruct s as [| | |b]; cbn [rescan_from] in H.
     + subst key. destruct (c =? c_bs) eqn:Ebs.
@@ -511,8 +515,7 @@ Proof.
         -- rewrite xstep_RN_prefix by assumption.
            rewrite (IH RP (c =? c_dollar) acc [] st') by (cbn; auto).
            cbn [pending]. now rewrite pfx_of.
-        -- apply orb_false_iff in Epre. destruct Epre as [E1 E2].
-           unfold state_of. rewrite xstep_lit by (unfold lit_char_ok; now rewrite E1, E2, Ebs).
+        -- rewrite xstep_RN_other by assumption.
            rewrite (IH RN st (acc ++ [c]) [] st') by (cbn; auto).
            cbn [pending app]. now rewrite <- app_assoc.
     + subst key. destruct ((c =? c_dollar) || (c =? c_pct)) eqn:Epre; [discriminate|].
